@@ -6,6 +6,7 @@ from engine.rules import (MustPass, guard_edges, eq_matcher, pred_matcher, outco
                           root_fn, switch_bool_edges, bool_atom)
 from engine.sym import Sym, strip, strip_deep, render, walk, short, substituting
 from props import common as K
+from engine.rules import success_values
 
 META = {
     "level": "other",
@@ -43,6 +44,7 @@ def run(ctx):
     ctx.rule("R-CHK", "every success path passes a checked call to the sink")
     ctx.rule("R-SIB", "case-insensitive operations in sibling functions share one boundary field")
     ctx.rule("R-FLOW", "operand provenance")
+    check_accessors_are_views(ctx, f)
 
     # ---- C12.a constructor discipline -----------------------------------------
     for adt, (bytes_f, bound_f) in TYPES.items():
@@ -1101,3 +1103,38 @@ def _lowercase_before_module(f, b, c):
     for l in later:
         reach_from_later |= b.reachable(l)
     return c.bb not in reach_from_later
+
+
+def check_accessors_are_views(ctx, f):
+    """A component accessor hands out a piece of the URI's own text: every value `path()`, `authority()`, `module_name()`
+    … returns is a sub-slice of `self` (an `Index::index` / `get` / `split_at` view of the value's own bytes) — never a
+    literal standing in for a component that is absent (the one exception: the empty string, which *is* the empty slice).
+    `join`, `parent`, `relative_to` and the equality tests are written in terms of these accessors: a path-less
+    `https://host` whose `path()` answers "/" is joined without a separator."""
+    n = 0
+    for fn in ("uri::Https::path", "uri::Rsync::path", "uri::Https::authority", "uri::Rsync::authority", "uri::Rsync::module_name",
+               "uri::Https::canonical_authority", "uri::Rsync::canonical_authority"):
+        b = f.body(fn)
+        if b is None:
+            continue
+        ctx.saw_fn(fn)
+        vals = [strip_deep(t) for _, _, t in success_values(b)]
+        bad = []
+        for v in vals:
+            t = v
+            # wrappers that keep the text: Cow::Borrowed(x), Cow::Owned(lowercased copy) are judged by their payload
+            while t[0] == "agg" and len(t[3]) == 1:
+                t = strip_deep(t[3][0][1])
+            txt = K.alpha(render(t), b)
+            if t[0] == "bytes" and len(t[1]) == 0:
+                continue
+            if t[0] in ("const", "bytes", "konst"):
+                bad.append(txt[:120])
+                continue
+            if not re.search(r"(^|[(, ])(\w+⟵)?self\b", txt):
+                bad.append(txt[:120])
+        n += 1
+        ctx.ob("R-FLOW", "%s:own-text" % short(fn), bool(vals) and not bad,
+               "%s returns a piece of the URI's own text on every path (no literal in place of an absent component)" % short(fn),
+               where=b.loc, detail=bad or None)
+    ctx.floor("R-FLOW", "component accessors of Rsync / Https returning views", n, 5)
